@@ -24,6 +24,7 @@ import json
 import os
 import pickle
 import random
+import signal
 import time
 import traceback
 import warnings
@@ -306,8 +307,20 @@ def foreign_action(act):
         raise ValueError(k)
 
 
+class Hang(Exception):
+    """a pyribs call did not return within CALL_LIMIT seconds (e.g. a bounds-resampling loop that no longer terminates)"""
+
+
+CALL_LIMIT = 15.0
+
+
+def _alarm(signum, frame):
+    raise Hang("pyribs call did not return within %.0f s" % CALL_LIMIT)
+
+
 class Pipeline:
-    """runs a case step by step; every pyribs call is bracketed by global-state snapshots"""
+    """runs a case step by step; every pyribs call is bracketed by global-state snapshots and a wall-clock guard (the guard is not an
+    oracle: a call that hangs in run A makes the case unusable; one that hangs only in run B / C is a divergence from run A)"""
 
     def __init__(self, case, mode, alt=False):
         self.case, self.mode = case, mode
@@ -321,9 +334,15 @@ class Pipeline:
         for act in foreign.get(str(self.step), []):
             foreign_action(act)
         g0 = global_state()
-        with warnings.catch_warnings():
-            warnings.simplefilter("ignore")
-            out = fn()
+        old = signal.signal(signal.SIGALRM, _alarm)
+        signal.setitimer(signal.ITIMER_REAL, CALL_LIMIT)
+        try:
+            with warnings.catch_warnings():
+                warnings.simplefilter("ignore")
+                out = fn()
+        finally:
+            signal.setitimer(signal.ITIMER_REAL, 0)
+            signal.signal(signal.SIGALRM, old)
         bad = global_diff(g0, global_state())
         if bad:
             self.disturbed.append((self.step, name, bad))
@@ -1138,6 +1157,8 @@ def check(rep, tier, seed, driver):
         rep.violation("generator degenerate: the library rejected %d of %d generated pipelines" % (rep.hist.get("rejected_by_library", 0), rep.evaluations),
                       {"kind": "generator", "examples": rep.extra.get("rejected_examples")}, False, {"kind": "generator"})
     static_report(rep, dynamic_kinds)
+    # the static finding first (only the first five replays are written out)
+    rep.violations.sort(key=lambda v: 0 if v["tags"].get("tie") == "static" else 1)
     selftest = scan_selftest()
     rep.extra["scan_selftest"] = selftest
     if selftest["failed"]:
